@@ -33,8 +33,9 @@ RULE = ('one evaluation = one seeded run: (hist) a single-client history of 20-2
         'pinned release and across two fresh interpreters with different PYTHONHASHSEED; (pairs) numerically equal int/float keys '
         'must map to one shard; non-trivial = at least 10 calls / at least one key compared; distinct = SHA-256 of the case')
 RULE += ' ' + 'Histories also change a setting (cull_limit) through one handle and reload it (reset(key)) through the others; every shard of every handle is inspected afterwards.'
+RULE += ' ' + 'Two seeds in a hundred change a disk_ setting on a live handle and read keys written afterwards through a fresh handle.'
 ASSUMPTIONS = ['histories use at most one member of each numerically-equal int/float pair (their split routing is known finding F11 and is probed separately)']
-PROBES = ('cull_expired', 'reopen', 'unpickled_handle', 'routing_keys_compared', 'xproc_runs', 'two_handles', 'reopen_with_new_limit', 'setting_changed')
+PROBES = ('cull_expired', 'reopen', 'unpickled_handle', 'routing_keys_compared', 'xproc_runs', 'two_handles', 'reopen_with_new_limit', 'setting_changed', 'disk_setting_changed_live')
 TECHNIQUE = 'deterministic simulation (virtual clock, simulated processes) + per-shard model-based checking; routing compared with a recorded table and across fresh interpreters with different hash seeds'
 LEVEL_TEXT = ('seeded exploration of call histories against per-shard reference models under the simulator, plus direct comparison '
               'of the routing function with a recorded table and across interpreters (the only nondeterminism the routing can depend on '
@@ -79,6 +80,10 @@ def gen_case(seed, tier):
                                       'extra_keys': [rng.choice(('q%d' % rng.randrange(10 ** 6), rng.randrange(-10 ** 12, 10 ** 12),
                                                                  {'t': [rng.randrange(100), 'z']}, {'f': repr(rng.random() * 1000)}))
                                                      for _ in range(30)] + FS_KEYS}}
+    if r < 0.12 and r >= 0.10:
+        # a disk_ setting changed on a live handle: from then on this handle and every other one serialise and route keys alike
+        return {'seed': seed, 'cfg': {'kind': 'disk_setting', 'shards': rng.choice((2, 3, 8, 13)), 'first': rng.choice((None, 0, 2, 4)),
+                                      'then': rng.choice((0, 2, 3, 5)), 'json': rng.random() < 0.2}}
     if r < 0.10:
         return {'seed': seed, 'cfg': {'kind': 'pairs', 'shards': rng.choice((2, 3, 8, 13)), 'pair': rng.randrange(len(PAIRS))}}
     settings = seqcache.gen_settings(rng, 'c13')
@@ -397,8 +402,46 @@ def run_pairs(case):
             'virtual_s': 0.0, 'nontrivial': True, 'outcome': {'pair': [a, b]}}
 
 
+def run_disk_setting(case):
+    cfg = case['cfg']
+    violations = []
+    world = World(case['seed'], clock={'mode': 'frozen'}, yield_clock=False)
+    try:
+        dc = world.dc
+        kw = {} if cfg['first'] is None else {'disk_pickle_protocol': cfg['first']}
+        if cfg['json']:
+            kw = {'disk': dc.JSONDisk, 'disk_compress_level': 1}
+        a = dc.FanoutCache(world.path('f'), shards=cfg['shards'], **kw)
+        if cfg['json']:
+            a.reset('disk_compress_level', 6)
+            keys = ['k%d' % i for i in range(12)] + [['list', i] for i in range(6)]
+        else:
+            a.reset('disk_pickle_protocol', cfg['then'])
+            keys = [(i, 'x') for i in range(8)] + [None, 2 ** 70, ('t', (1, 2)), frozenset([1, 2])] + [(b'b', i) for i in range(4)]
+        for i, k in enumerate(keys):
+            a.set(k, i, retry=True)
+        b = dc.FanoutCache(world.path('f'), shards=cfg['shards'], **({'disk': dc.JSONDisk} if cfg['json'] else {}))
+        for i, k in enumerate(keys):
+            ga, gb = a.get(k, retry=True), b.get(k, retry=True)
+            if ga != i or gb != i:
+                violations.append({'rule': 'C13/written-by-one-handle-not-found-by-another', 'sig': 'disk-setting-changed-on-live-handle',
+                                   'detail': 'key %r written after reset of a disk_ setting: the writing handle reads %r, a fresh handle %r (stored %r)' % (k, ga, gb, i)})
+                break
+        if len(a) != len(keys) and not violations:
+            violations.append({'rule': 'C13/written-by-one-handle-not-found-by-another', 'sig': 'count', 'detail': '%d items for %d keys' % (len(a), len(keys))})
+        a.close()
+        b.close()
+    finally:
+        world.close()
+    digest = hashlib.sha256(json.dumps(case, sort_keys=True).encode()).hexdigest()
+    return {'violations': violations, 'digest': digest, 'steps': 30, 'switches': 0, 'fired': {}, 'probes': {'disk_setting_changed_live': 1, 'routing_keys_compared': 20},
+            'virtual_s': 0.0, 'nontrivial': True, 'outcome': {'keys': 20}}
+
+
 def run_case(case):
     kind = case['cfg']['kind']
+    if kind == 'disk_setting':
+        return run_disk_setting(case)
     if kind == 'routing':
         return run_routing(case)
     if kind == 'pairs':
